@@ -154,7 +154,7 @@ Proof.
     cbn [t_endround incs]. intros E. change (incs (gtask s c) = true) in E. congruence.
   - set (yc := t_endround (gtask s c) false).
     destruct (inv_handover _ c w (tvw yc) (KCoro, PCs, false) I) as (Ww & Nwc & _ & _);
-      [cbn [v_tv]; rewrite upd_same; exact Hh|reflexivity|reflexivity|reflexivity|].
+      [cbn [v_tv]; rewrite upd_same; exact Hh|reflexivity|reflexivity|reflexivity|intros e; discriminate|].
     cbn [v_tv] in Ww. rewrite upd_other in Ww by exact Nwc.
     assert (Pw : tpc (gtask s w) <> PCs) by (eapply cwait_not_cs; exact Ww).
     pose proof (incs_not_cs s w JJ Pw) as Iw.
@@ -222,8 +222,9 @@ Proof.
         -- unfold set_pc. rewrite gtask_set_task by exact Lc. rewrite Nat.eqb_refl. exact Ic.
       * destruct (cacq (gtask s c)); [unfold set_pc|]; jt s c JJ Ic.
       * destruct (cacq (gtask s c)); [unfold set_pc|]; jt s c JJ Ic.
-    + (* PSub *)
-      cbv zeta in *. destruct (requests s) eqn:Rq; cbn [fst] in *.
+    + (* PSub e *)
+      cbv zeta in *. destruct (ptr_eqb (requests s) e); cbn [fst] in *; [|unfold set_pc; jt s c JJ Ic].
+      destruct e; cbn [fst] in *.
       * unfold set_pc. jt s c JJ Ic.
       * destruct (tk (gtask s c)); cbn [fst] in *; [apply j_set_run; unfold set_pc|]; jt s c JJ Ic.
       * destruct (tk (gtask s c)); cbn [fst] in *; [apply j_set_run; unfold set_pc|]; jt s c JJ Ic.
@@ -245,14 +246,16 @@ Proof.
       apply j_task; [exact JJ|]. cbn [t_leave incs]. discriminate.
     + (* PUnlock *)
       assert (Hc : cls (v_tv (vw s) c) = CHold) by (cbn [vw v_tv]; unfold tvs, tvw; rewrite P; reflexivity).
-      assert (Hand : J (handover s t c) \/ True) by auto.
-      destruct (queue s) eqn:Q; cbn [fst] in *.
-      * destruct (requests s) eqn:Rq; cbn [fst] in *; [unfold set_pc| |unfold set_pc]; jt s c JJ Ic.
-      * exfalso. pose proof (i_queue _ I) as RQ. cbn [vw v_next v_q v_gq] in RQ. rewrite Q in RQ.
-        destruct (repr_nil_inv _ _ _ _ RQ); [discriminate|discriminate].
-      * apply j_handover with (vh := tvs s c); try assumption.
-        -- rewrite P. discriminate.
-        -- eapply inv_veq; [|exact I]. veq_fields. intros x. symmetry. apply upd_id.
+      assert (Hd : J (handover s t c) \/ True) by auto.
+      destruct (requests s) eqn:Rq; cbn [fst] in *; [eapply j_conv; [| | |exact JJ]; reflexivity| |];
+        (destruct (queue s) eqn:Q; cbn [fst] in *;
+         [unfold set_pc; jt s c JJ Ic
+         |exfalso; pose proof (i_queue _ I) as RQ; cbn [vw v_next v_q v_gq] in RQ; rewrite Q in RQ;
+          destruct (repr_nil_inv _ _ _ _ RQ); discriminate
+         |apply j_handover with (vh := tvs s c); try assumption;
+          [rewrite P; discriminate|eapply inv_veq; [|exact I]; veq_fields; intros x; symmetry; apply upd_id]]).
+    + (* PUnlockCas *)
+      destruct (requests s) eqn:Rq; cbn [fst] in *; [unfold set_pc| |unfold set_pc]; jt s c JJ Ic.
     + (* PBqU *)
       assert (Cc : cls (v_tv (vw s) c) = CBqU) by (cbn [vw v_tv]; unfold tvs, tvw; rewrite P; reflexivity).
       destruct (inv_bq (vw s) c PDoor (length (tasks s) + 2) (tk (gtask s c), PUnlock, flag (gtask s c)) I)
